@@ -490,9 +490,10 @@ pub fn sequential(sc: &Scenario) -> Result<Sequential, String> {
     let final_text = out.responses[&900][0]["result"].as_str().map(tree_text).unwrap_or_default();
     // the diagnostics of the final text are those a FRESH server publishes on opening that text
     // (what this session published last depends on its history, which is the thing under test)
-    let mut final_diags = out.diags.last().cloned().unwrap_or(Value::Null);
-    if sc.v2.is_none() && sc.msgs.iter().any(|m| matches!(m, Msg::Notify { .. })) {
-        let text: &'static str = Box::leak(client_final_text(sc).into_boxed_str());
+    // the diagnostics of a final text are those a FRESH server publishes on opening that text
+    // alone (what this session published last depends on its history, which is the thing under test)
+    let fresh_diags = |text: String| -> Result<Value, String> {
+        let text: &'static str = Box::leak(text.into_boxed_str());
         let fresh_sc = Scenario { name: "fresh", v1: text, msgs: vec![], v2: None };
         let mut q = Proc::spawn(&[]).map_err(|e| e.to_string())?;
         let mut fo = RunOut::default();
@@ -501,12 +502,20 @@ pub fn sequential(sc: &Scenario) -> Result<Sequential, String> {
             return Err("fresh session for the final text failed".into());
         }
         settle(&mut q, &mut fo);
-        final_diags = fo.diags.last().cloned().unwrap_or(Value::Null);
+        let d = fo.diags.last().cloned().unwrap_or(Value::Null);
         q.send(&json!({"jsonrpc": "2.0", "method": "exit", "params": null}));
         q.close_stdin();
         let _ = q.wait_exit(Duration::from_secs(2));
-    }
-    Ok(Sequential { results, final_diags, final_diags2: out.diags2.last().cloned().unwrap_or(Value::Null), final_text })
+        Ok(d)
+    };
+    // a document closed at the end has its diagnostics cleared: the session's own last message counts
+    let closed_at_end = sc.msgs.iter().rev().find_map(|m| match m { Msg::Notify { method, .. } => Some(*method == "textDocument/didClose"), _ => None }).unwrap_or(false);
+    let final_diags = if closed_at_end { out.diags.last().cloned().unwrap_or(Value::Null) } else { fresh_diags(client_final_text(sc))? };
+    let final_diags2 = match sc.v2 {
+        Some(_) => fresh_diags(client_final_text2(sc))?,
+        None => out.diags2.last().cloned().unwrap_or(Value::Null),
+    };
+    Ok(Sequential { results, final_diags, final_diags2, final_text })
 }
 
 fn norm(v: &Value) -> String {
@@ -588,11 +597,24 @@ pub fn edit_during_request_probes() -> Vec<(String, Vec<(String, String)>)> {
         .collect()
 }
 
+/// The second document as the editor has it after all its edits.
+fn client_final_text2(sc: &Scenario) -> String {
+    client_text_after(sc.v2.unwrap_or(""), sc, true)
+}
+
 /// The first document as the editor has it after all edits of the scenario (reference client model).
 fn client_final_text(sc: &Scenario) -> String {
-    let mut doc = crate::lsp::client::RefDoc::new(sc.v1);
+    client_text_after(sc.v1, sc, false)
+}
+
+fn client_text_after(v: &str, sc: &Scenario, second: bool) -> String {
+    let mut doc = crate::lsp::client::RefDoc::new(v);
     for m in &sc.msgs {
-        let Msg::Edit { changes } = m else { continue };
+        let changes = match (m, second) {
+            (Msg::Edit { changes }, false) => changes,
+            (Msg::Edit2 { changes }, true) => changes,
+            _ => continue,
+        };
         for ch in changes.as_array().cloned().unwrap_or_default() {
             let text = ch["text"].as_str().unwrap_or("");
             match ch.get("range") {
